@@ -34,10 +34,10 @@ FNS = {'argsort', 'at', 'strip', 'all'}
 
 def check_drivers(ctx):
     repo = ctx.repo
-    for v, single in ((1, False), (1, True), (2, False)):
+    for v, single in ((1, False), (1, True), (2, False), (1, 'one')):
         fi, I, h, fh = convmodel.run_driver(repo, v, single)
         ctx.fn(fi)
-        tag = 'driver %d%s' % (v, ' (single aperture)' if single else '')
+        tag = 'driver %d%s' % (v, ' (package tabulated at one aperture)' if single == 'one' else ' (single aperture)' if single else '')
         where_ = loc(fi)
         fl = fh.get('fluxes')
         if I.findings:
@@ -48,6 +48,15 @@ def check_drivers(ctx):
             continue
         ref = convmodel.reference(v, single)
         e = fl.elem
+        if single == 'one':
+            # exactly one tabulated aperture: it is carried over like any other table of apertures (only an aperture-independent package has none);
+            # names, fluxes and errors of this branch are the obligations of the single-aperture configuration above
+            ap_ = e.attrs.get('_apertures')
+            if ap_ is None:
+                ctx.violation('PERM-8', tag + ': apertures', where_, 'a package tabulated at exactly one aperture gets convolved files without apertures (the cube format keeps them)', 'one-aperture-dropped')
+            else:
+                compare(ctx, 'PERM-8', tag + ': apertures', where_, ap_, sym('sap', A), (A,), vocab=VOCAB, fns=FNS, detail_ok='the single tabulated aperture is carried over')
+            continue
         dims = (M, None) if single else (M, A)
         compare(ctx, 'PERM-8', tag + ': row m name', where_, e.attrs.get('_model_names'), ref['names'], (M,), vocab=VOCAB, fns=FNS,
                 detail_ok='model_names[m] is the name of SED m' if v == 1 else 'model_names == the cube\'s names')
@@ -199,6 +208,7 @@ CF = 'sedfitter/convolved_fluxes/convolved_fluxes.py'
 MI = 'sedfitter/utils/misc.py'
 CU = 'sedfitter/sed/cube.py'
 MUST_FIRE = [
+    ('a package tabulated at exactly one aperture loses it (apertures kept only when there are several)', [('sedfitter/convolve/convolve.py', "    apertures = first_sed.apertures\n", "    apertures = first_sed.apertures if n_ap > 1 else None\n")]),
     ('one name array shared by all filters and sorted in place', [(CV, "    fluxes = [ConvolvedFluxes(model_names=np.zeros(len(sed_files), dtype='U30'), apertures=apertures, initialize_arrays=True) for i in range(len(filters))]", "    model_names = np.zeros(len(sed_files), dtype='U30')\n    fluxes = [ConvolvedFluxes(model_names=model_names, apertures=apertures, initialize_arrays=True) for i in range(len(filters))]"), ('sedfitter/convolved_fluxes/convolved_fluxes.py', "        self.model_names = self.model_names[order]\n        self.flux = self.flux[order, :]\n        self.error = self.error[order, :]", "        self.model_names[:] = self.model_names[order]\n        self.flux[:] = self.flux[order, :]\n        self.error[:] = self.error[order, :]")]),
     ('D20 reverted: cube flux multiplied by the unit factor and converted again on assignment', [(CV, "np.sum(sed_val * response, axis=1).to(u.mJy)", "np.sum(sed_val * response, axis=1) * sed_cube.val.unit.to(u.mJy)")]),
     ('cube error multiplied by the unit factor and converted again', [(CV, "np.sqrt(np.sum((sed_unc * response) ** 2, axis=1)).to(u.mJy)", "np.sqrt(np.sum((sed_unc * response) ** 2, axis=1)) * sed_cube.unc.unit.to(u.mJy)")]),
